@@ -1141,7 +1141,6 @@ def run_all(runner, cases, deadline_at, progress=True):
              if j is not None]
         queues[t] = q
     pos = {t: 0 for t in THREADS}
-    cost = {1: 1.0, 2: 4.0, 4: 12.0}   # relative lane-time per job
     batch = {1: 32, 2: 12, 4: 4}
     lock = threading.Lock()
     state = dict(stop=False, done=0)
@@ -1153,12 +1152,14 @@ def run_all(runner, cases, deadline_at, progress=True):
             if state["stop"] or time.time() >= deadline_at:
                 state["stop"] = True
                 return None, []
-            best, bw = None, 0.0
-            for t in THREADS:
-                left = len(queues[t]) - pos[t]
-                w = left * cost[t]
-                if left > 0 and w > bw:
-                    best, bw = t, w
+            # the class that is furthest behind: if the deadline cuts the
+            # run, every thread count has covered the same share of its queue
+            best, bf = None, 2.0
+            for t in reversed(THREADS):
+                if pos[t] < len(queues[t]):
+                    f = pos[t] / float(len(queues[t]))
+                    if f < bf:
+                        best, bf = t, f
             if best is None:
                 return None, []
             n = batch[best]
